@@ -743,6 +743,12 @@ func (fe *FuncEnc) binop(x *ssa.BinOp, st *State) {
 		fe.setVal(x, fmt.Sprintf("(%s %s %s)", fn, a, b))
 		fe.assume(st, fe.typeFacts(st, fe.vals[x], x.Type()))
 	case token.EQL, token.NEQ:
+		if isString(xt) && isString(x.Y.Type()) {
+			// string extensionality, instantiated for this comparison: two different strings differ
+			// in length or at some index d (a fresh witness) - sound, and local to the two operands
+			d := fe.sc.declare("strdiff", sInt)
+			fe.assume(st, fmt.Sprintf("(or (= %s %s) (not (= (hv_strlen %s) (hv_strlen %s))) (and (<= 0 %s) (< %s (hv_strlen %s)) (not (= (hv_strat %s %s) (hv_strat %s %s)))))", a, b, a, b, d, d, a, a, d, b, d))
+		}
 		e := fe.equal(xt, x.Y.Type(), a, b)
 		if x.Op == token.NEQ {
 			e = not(e)
